@@ -1,5 +1,5 @@
 (** C09 — listing and bucket ids are never reused. *)
-From FM Require Import Ids Reentrant.
+From FM Require Import Ids Reentrant CallSeq.
 
 (** [creates_l_b m id] / [creates_b_b m id]: message [m] asks for the creation of listing /
     bucket [id] — through the native message, the CW20 hook or the CW721 hook (three paths
@@ -54,6 +54,21 @@ Theorem C09_used_forever_with_reentry : forall tx w,
   incl (b_used (market w)) (b_used (market (rrun w tx))).
 Proof. exact rrun_used_mono. Qed.
 Print Assumptions C09_used_forever_with_reentry.
+
+(** Under every interleaving (proofs/CallSeq.v): once an id has been accepted for a listing
+    (bucket), no later state reached by any sequence of marketplace calls — any senders, order or
+    nesting — accepts it for a listing (bucket) again, through any of the three creation paths. *)
+Theorem C09_listing_id_issued_once_under_every_interleaving : forall s o e a fs m id s1 out s2 o' e' a' fs' m',
+  Inv s -> execute o e a fs m s = Ok (s1, out) -> creates_l_b m id = true -> mreach s1 s2 ->
+  creates_l_b m' id = true -> execute o' e' a' fs' m' s2 = Err.
+Proof. exact listing_id_issued_once. Qed.
+Print Assumptions C09_listing_id_issued_once_under_every_interleaving.
+
+Theorem C09_bucket_id_issued_once_under_every_interleaving : forall s o e a fs m id s1 out s2 o' e' a' fs' m',
+  Inv s -> execute o e a fs m s = Ok (s1, out) -> creates_b_b m id = true -> mreach s1 s2 ->
+  creates_b_b m' id = true -> execute o' e' a' fs' m' s2 = Err.
+Proof. exact bucket_id_issued_once. Qed.
+Print Assumptions C09_bucket_id_issued_once_under_every_interleaving.
 
 (** Over every history from an instantiated marketplace, every id is accepted at most once
     for a listing and at most once for a bucket, whoever asks and through whichever path. *)
